@@ -14,7 +14,7 @@ import (
 var flattenStream = (&StreamSpec{
 	Name:   "flatten",
 	Op:     "flatten",
-	N:      96, // bundles; each is run under the 6 option sets (+KeepNames on some single-document bundles)
+	N:      132, // bundles; each is run under the 6 option sets (+KeepNames on some single-document bundles)
 	Stream: 1,
 	Rule:   "bundles of W from the bundle generator (root + 0..3 auxiliary JSON files in nested directories; $refs local / cross-file / aux-to-aux / self- and mutually recursive / arrays and maps of themselves / anonymous pointers to sub-schemas of root definitions and to shared parameter/response schemas where W allows them; parameter and response $refs to shared objects; names over the alphabet; colliding imported $ref-free definitions) x option sets {Minimal, full, Expand} x {RemoveUnused}; per case: Flatten in a child process, 3 repeats + 2 loads with permuted key order, second Flatten on the output, analyzer digest vs fresh analysis, every k-th load failing; Lean validators on (input bundle, output); non-trivial = Flatten returned nil; distinct by canonical JSON",
 	Gen:    nil,
